@@ -177,7 +177,8 @@ def push_protocol_model(ctx):
     rows = PP_MATRIX[:3] if ctx.quick() else PP_MATRIX
     res = {}
     for cfg, expect in rows:
-        r = tlc(ctx, SPEC, "MC_PushProtocol", cfg + ".cfg", timeout=1800, allow_violation=True, tag=cfg)
+        # rows that must yield a counterexample are tiny; one worker = strict BFS, so WHICH invariant is reported first is deterministic
+        r = tlc(ctx, SPEC, "MC_PushProtocol", cfg + ".cfg", timeout=1800, allow_violation=True, tag=cfg, workers=1 if expect else None)
         if r.error_text:
             raise Inconclusive("TLC error in MC_PushProtocol/%s: %s" % (cfg, r.error_text))
         if r.inv_violated != expect:
@@ -186,7 +187,7 @@ def push_protocol_model(ctx):
             ctx.cov["states"] += r.distinct
             ctx.cov["transitions"] += r.generated
         res[cfg] = expect or "proved"
-        log("  TLC %-28s %-26s %9d distinct  -> %s  %.1fs" % ("MC_PushProtocol", cfg, r.distinct, expect and ("counterexample " + expect + " (expected, named deviation)") or "proved", r.wall))
+        log("  TLC %-28s %-26s %9d distinct  -> %s  %.1fs" % ("MC_PushProtocol", cfg, r.distinct, expect and ("counterexample " + expect + " (expected: hole left open by this variant)") or "proved", r.wall))
     ctx.cov["push_protocol_model"] = res
 
 
@@ -361,3 +362,11 @@ def existing_tests(ctx):
     log("  existing replication tests with hooks on: rc=%d, %d checkpointer instances, %d events, %d checkpoints" % (p.returncode, ninst, len(lines), nticks))
     if ninst:
         validate_system_trace(ctx, lines, ninst, "existing")
+    if has_push_hooks():      # the same runs against the push-protocol ground truth (free-running: whatever interleavings happened)
+        free = convert_push_events(read_ndjson(hook))
+        for g in free:
+            g["scn"] = "existing-tests"
+        info = ctx.cov.setdefault("push_protocol", {"reproduced": []})
+        info["existing_tests_push_instances"] = len(free)
+        if free:
+            validate_push_group(ctx, free, "pp-existing", info, [])
